@@ -179,93 +179,10 @@ func pathConds(fn *ssa.Function) *PathConds {
 	}
 
 	edgeOut := func(p, b *ssa.BasicBlock) []Conj {
-		src := pc.in[p]
-		if len(src) == 0 {
-			return nil
-		}
 		var out []Conj
-		var condID int32 = -1
-		val := false
-		if ifi, ok := p.Instrs[len(p.Instrs)-1].(*ssa.If); ok && p.Succs[0] != p.Succs[1] {
-			atom, neg := normCond(ifi.Cond)
-			if cb, isConst := constBool(atom); isConst {
-				// constant condition: the other edge is infeasible
-				want := (b == p.Succs[0])
-				if (cb != neg) != want {
-					return nil
-				}
-			} else {
-				condID = pc.id(atom)
-				val = (b == p.Succs[0]) != neg
-			}
-		}
-		// index of p among b's preds (for phis)
-		pidx := -1
-		for i, q := range b.Preds {
-			if q == p {
-				pidx = i
-			}
-		}
-		for _, c := range src {
-			ok := true
-			if condID >= 0 {
-				c, ok = c.with(condID, val)
-				if !ok {
-					continue
-				}
-			}
-			// kill literals on values defined in the region dominated by b (stale on (re-)entry)
-			var kept []int32
-			killed := false
-			for _, l := range c.lits {
-				db := defBlock(pc.vals[l/2])
-				if db != nil && b.Dominates(db) {
-					killed = true
-					continue
-				}
-				kept = append(kept, l)
-			}
-			var keptAl []alias
-			for _, a := range c.alias {
-				db := defBlock(pc.vals[a.phi])
-				db2 := defBlock(pc.vals[a.src])
-				if (db != nil && b.Dominates(db)) || (db2 != nil && b.Dominates(db2)) {
-					killed = true
-					continue
-				}
-				keptAl = append(keptAl, a)
-			}
-			if killed {
-				c = Conj{kept, keptAl}
-			}
-			// phi facts
-			for _, in := range b.Instrs {
-				phi, isPhi := in.(*ssa.Phi)
-				if !isPhi {
-					break
-				}
-				if !isBoolType(phi) || pidx < 0 {
-					continue
-				}
-				atom, neg := normCond(phi.Edges[pidx])
-				pid := pc.id(phi)
-				if cb, isConst := constBool(atom); isConst {
-					c, ok = c.with(pid, cb != neg)
-				} else {
-					aid := pc.id(atom)
-					if v, known := c.get(aid); known {
-						c, ok = c.with(pid, v != neg)
-					} else {
-						al := append(append([]alias{}, c.alias...), alias{pid, aid, neg})
-						c = Conj{c.lits, al}
-					}
-				}
-				if !ok {
-					break
-				}
-			}
-			if ok {
-				out = append(out, c)
+		for _, c := range pc.in[p] {
+			if n, ok := pc.transfer(c, p, b); ok {
+				out = append(out, n)
 			}
 		}
 		return out
@@ -390,4 +307,133 @@ func hasLit(lits []Lit, m func(atom ssa.Value, val bool) bool) bool {
 		}
 	}
 	return false
+}
+
+// transfer pushes one conjunction along the CFG edge p->b: adds the branch literal, drops literals that
+// become stale on (re-)entry of b's dominance region, adds the facts implied by b's bool phis.
+// ok=false: the edge is infeasible under c.
+func (pc *PathConds) transfer(c Conj, p, b *ssa.BasicBlock) (Conj, bool) {
+	ok := true
+	if ifi, isIf := p.Instrs[len(p.Instrs)-1].(*ssa.If); isIf && p.Succs[0] != p.Succs[1] {
+		atom, neg := normCond(ifi.Cond)
+		want := (b == p.Succs[0])
+		if cb, isConst := constBool(atom); isConst {
+			if (cb != neg) != want {
+				return c, false
+			}
+		} else {
+			c, ok = c.with(pc.id(atom), want != neg)
+			if !ok {
+				return c, false
+			}
+		}
+	}
+	pidx := -1
+	for i, q := range b.Preds {
+		if q == p {
+			pidx = i
+		}
+	}
+	var kept []int32
+	killed := false
+	for _, l := range c.lits {
+		db := defBlock(pc.vals[l/2])
+		if db != nil && b.Dominates(db) {
+			killed = true
+			continue
+		}
+		kept = append(kept, l)
+	}
+	var keptAl []alias
+	for _, a := range c.alias {
+		db := defBlock(pc.vals[a.phi])
+		db2 := defBlock(pc.vals[a.src])
+		if (db != nil && b.Dominates(db)) || (db2 != nil && b.Dominates(db2)) {
+			killed = true
+			continue
+		}
+		keptAl = append(keptAl, a)
+	}
+	if killed {
+		c = Conj{kept, keptAl}
+	}
+	for _, in := range b.Instrs {
+		phi, isPhi := in.(*ssa.Phi)
+		if !isPhi {
+			break
+		}
+		if !isBoolType(phi) || pidx < 0 {
+			continue
+		}
+		atom, neg := normCond(phi.Edges[pidx])
+		pid := pc.id(phi)
+		if cb, isConst := constBool(atom); isConst {
+			c, ok = c.with(pid, cb != neg)
+		} else {
+			aid := pc.id(atom)
+			if v, known := c.get(aid); known {
+				c, ok = c.with(pid, v != neg)
+			} else {
+				al := append(append([]alias{}, c.alias...), alias{pid, aid, neg})
+				c = Conj{c.lits, al}
+			}
+		}
+		if !ok {
+			return c, false
+		}
+	}
+	return c, true
+}
+
+// feasiblePathAvoiding is pathAvoiding with flag awareness: paths are walked together with the branch
+// facts collected since `start` (bool phis and their aliases included), and an edge that contradicts
+// them is not taken. Bounded by the number of distinct (block, facts) states.
+func feasiblePathAvoiding(start ssa.Instruction, isGoal, isBlock func(ssa.Instruction) bool, edgeOK func(from, to *ssa.BasicBlock) bool) ssa.Instruction {
+	pc := &PathConds{fn: start.Parent(), ids: map[ssa.Value]int32{}, in: map[*ssa.BasicBlock][]Conj{}, coll: map[*ssa.BasicBlock]bool{}}
+	type item struct {
+		b *ssa.BasicBlock
+		i int
+		c Conj
+	}
+	seen := map[string]bool{}
+	work := []item{{start.Block(), instrIndex(start) + 1, Conj{}}}
+	steps := 0
+	for len(work) > 0 {
+		it := work[len(work)-1]
+		work = work[:len(work)-1]
+		steps++
+		if steps > 200000 {
+			// give up on flag awareness: fall back to the path-insensitive answer (conservative)
+			return pathAvoiding(start, isGoal, isBlock, edgeOK)
+		}
+		blocked := false
+		for i := it.i; i < len(it.b.Instrs); i++ {
+			in := it.b.Instrs[i]
+			if isBlock(in) {
+				blocked = true
+				break
+			}
+			if isGoal(in) {
+				return in
+			}
+		}
+		if blocked {
+			continue
+		}
+		for _, s := range it.b.Succs {
+			if edgeOK != nil && !edgeOK(it.b, s) {
+				continue
+			}
+			n, ok := pc.transfer(it.c, it.b, s)
+			if !ok {
+				continue
+			}
+			k := string(rune(s.Index)) + "#" + n.key()
+			if !seen[k] {
+				seen[k] = true
+				work = append(work, item{s, 0, n})
+			}
+		}
+	}
+	return nil
 }
